@@ -867,7 +867,7 @@ func (i *BigInt) LaxEqual(other Value) bool {
 			oBigInt := NewBigInt(int64(o))
 			return i.Cmp(oBigInt) == 0
 		case Float64:
-			return i.ToFloat() == Float(o)
+			return EqBigIntFloat64(i.ToGoBigInt(), float64(o))
 		default:
 			return false
 		}
@@ -878,7 +878,7 @@ func (i *BigInt) LaxEqual(other Value) bool {
 		oBigInt := NewBigInt(int64(other.AsSmallInt()))
 		return i.Cmp(oBigInt) == 0
 	case FLOAT_FLAG:
-		return i.ToFloat() == other.AsFloat()
+		return EqBigIntFloat64(i.ToGoBigInt(), float64(other.AsFloat()))
 	case INT64_FLAG:
 		oBigInt := NewBigInt(int64(other.AsInlineInt64()))
 		return i.Cmp(oBigInt) == 0
@@ -907,9 +907,9 @@ func (i *BigInt) LaxEqual(other Value) bool {
 		oBigInt := NewBigInt(int64(other.AsUInt8()))
 		return i.Cmp(oBigInt) == 0
 	case FLOAT64_FLAG:
-		return i.ToFloat() == Float(other.AsInlineFloat64())
+		return EqBigIntFloat64(i.ToGoBigInt(), float64(other.AsInlineFloat64()))
 	case FLOAT32_FLAG:
-		return i.ToFloat() == Float(other.AsFloat32())
+		return EqBigIntFloat64(i.ToGoBigInt(), float64(other.AsFloat32()))
 	default:
 		return false
 	}
